@@ -348,6 +348,9 @@ def run(ctx):
     g("validate_statement:destination>=len", vst, Cmp("ge", None, "c:len"), rel="ge",
       err=("ProgramRegistryError", "JumpOutOfRange"))
 
+    # ---------------- R14.7 a division by an untrusted value is preceded by a test of that value
+    _divisions(ctx, F, reach)
+
     # ---------------- R14.4 no dead rejection
     ERR_ENUMS = ["cairo_lang_sierra::program_registry::ProgramRegistryError",
                  "cairo_lang_sierra_to_casm::compiler::CompilationError",
@@ -833,3 +836,108 @@ def _controls(ctx, F, wrappers):
     m2 = Fn(d2, tsz.crate)
     after2 = Counter(k for k, _ in site_kinds(m2, wrappers))
     ctx.control("integer Iterator::sum is a panic-capable site", any("Iterator::sum" in k for k in after2))
+
+
+DIV_NAMES = {"div", "rem", "div_rem", "div_floor", "mod_floor", "div_mod_floor", "div_euclid", "rem_euclid", "div_assign", "rem_assign"}
+RELATIONAL = {"ge", "gt", "le", "lt", "eq", "ne", "cmp", "partial_cmp", "is_zero", "is_positive", "is_negative", "is_one", "max", "min"}
+
+
+THROUGH = {"add", "sub", "mul", "neg", "shl", "shr", "clone", "deref", "borrow", "as_ref", "into", "from", "to_owned", "max", "min", "one", "zero",
+           "abs", "pow", "to_bigint", "magnitude", "unwrap", "expect", "branch", "from_residual", "ok_or", "ok_or_else", "map_err"}
+
+
+def _access_paths(f, op, limit=300):
+    """(variable, field) pairs, constants and call names a value is computed from (copies, re-borrows, projections,
+    non-`&mut` call arguments)."""
+    from .lib import rvalue_operands, place_proj, op_place
+    paths, consts, names, todo, seen = set(), set(), set(), [op], set()
+    while todo and len(seen) < limit:
+        o = todo.pop()
+        k = op_const(o)
+        if k is not None:
+            if k[0] == "int":
+                consts.add(k[1])
+            continue
+        pl = op_place(o)
+        if pl is None:
+            continue
+        l = place_local(pl)
+        # (tuple components - e.g. the (value, overflowed) pair of a checked operation - are not fields of anything)
+        flds = [str(e[2]) for e in place_proj(pl) if isinstance(e, list) and e[0] == "f" and e[2] is not None and not str(e[2]).isdigit()]
+        if flds:
+            paths.add((f.local_name(l) or "_%d" % l, flds[-1]))
+        if l in seen:
+            continue
+        seen.add(l)
+        if 1 <= l <= f.argc and not flds:
+            paths.add((f.local_name(l) or "_%d" % l, ""))
+        for d in f.defs().get(l, []):
+            if d[0] == "stmt":
+                rv = d[3]
+                if rv[0] == "ref":
+                    todo.append(["c", rv[1]])
+                else:
+                    todo.extend(rvalue_operands(rv))
+            elif d[0] == "call":
+                c = d[2]
+                names.add(c.name())
+                if c.name() not in THROUGH:
+                    if not any(op_place(a) is not None for a in c.args):
+                        continue          # a nullary function (`Felt252::prime()`): a constant
+                    # the result of any other call is a value of its own (named after the variable that holds it)
+                    if f.local_name(l):
+                        paths.add((f.local_name(l), ""))
+                    continue
+                for a in c.args:
+                    la = op_local(a)
+                    if la is not None and (f.local_ty(la) or "").startswith("&mut"):
+                        continue
+                    todo.append(a)
+    return paths, consts, names
+
+
+def _divisions(ctx, F, reach):
+    """R14.7: on the untrusted path, the divisor of an arbitrary-precision division is a constant, is bounded away from
+    zero by construction (`max(x, 1)`), or is computed from a value that a dominating relational test has looked at."""
+    n = 0
+    for p in sorted(reach):
+        f = F.fns[p]
+        if not f.body:
+            continue
+        k_ = 0
+        for c in f.calls():
+            if c.name() not in DIV_NAMES or len(c.args) < 2:
+                continue
+            tys = [(f.local_ty(op_local(a)) or "") if op_local(a) is not None else "" for a in c.args[:2]]
+            if not any("BigInt" in t or "BigUint" in t for t in tys) and "num_bigint" not in c.path and "num_integer" not in c.path:
+                continue
+            paths, consts, names = _access_paths(f, c.args[1])
+            # a value captured by a closure is computed in the enclosing function
+            root = F.fns.get(f.root) if f.kind == "Closure" else None
+            if root is not None and root.body:
+                for (v_, fld_) in list(paths):
+                    if v_ == "_1" and fld_:
+                        nm_ = fld_[len("_ref__"):] if fld_.startswith("_ref__") else fld_
+                        ls_ = [l for l in range(len(root.d["body"]["locals"])) if root.local_name(l) == nm_]
+                        if len(ls_) == 1:
+                            p2, c2, n2 = _access_paths(root, ["c", ls_[0]])
+                            paths.discard((v_, fld_))
+                            paths |= p2
+                            consts |= c2
+                            names |= n2
+            n += 1
+            k_ += 1
+            key = "%s|%s#%d" % (fn_key(p), c.name(), k_)
+            if not paths or ("max" in names and any(v >= 1 for v in consts)) or "prime" in names and not paths:
+                ctx.ob("R14.7", key, True, "the divisor is a constant or bounded away from zero by construction", c.where())
+                continue
+            tested = set()
+            for g in f.calls():
+                if g.name() in RELATIONAL and g.bb != c.bb and f.dominates(g.bb, c.bb):
+                    for a in g.args:
+                        tested |= _access_paths(f, a)[0]
+            ok = bool(paths & tested)
+            ctx.ob("R14.7", key, ok,
+                   "the divisor is computed from %s, which a dominating test has looked at" % sorted(paths & tested)[:2] if ok else
+                   "the divisor is computed from %s and no relational test of that value dominates the division: a zero divisor panics" % sorted(paths)[:3], c.where())
+    ctx.floor("arbitrary-precision divisions on the untrusted path", n, 4)
